@@ -3,8 +3,8 @@ import copy
 import gc
 import pickle
 
-from traits.api import (Dict, HasTraits, Instance, Int, List, Property, Set,
-                        Str, cached_property)
+from traits.api import (Any, Dict, HasTraits, Instance, Int, List, Property,
+                        Set, Str, cached_property)
 
 from props import graphs as G
 
@@ -28,8 +28,30 @@ MIN_OUTCOMES = {t: ["value-changed-notified", "cache-hit", "cache-refreshed",
                 for t in ("quick", "thorough")}
 TIMEOUT = {"quick": 1200, "thorough": 7200}
 
-PROPS = ["total", "total_u", "first", "own", "deep", "msum", "ssum", "cset"]
-CACHED = ["total", "first", "own", "deep", "msum", "ssum", "cset"]
+PROPS = ["total", "total_u", "first", "own", "deep", "msum", "ssum", "cset",
+         "bigkid", "tokname"]
+CACHED = ["total", "first", "own", "deep", "msum", "ssum", "cset", "bigkid",
+          "tokname"]
+
+
+class Tok:
+    """a value with a naive value-based __eq__ (raises AttributeError when
+    compared with None or anything else that is not a Tok)"""
+
+    def __init__(self, k):
+        self.k = k
+
+    def __eq__(self, other):
+        return self.k == other.k
+
+    def __hash__(self):
+        return hash(self.k)
+
+    def __repr__(self):
+        return "Tok(%d)" % self.k
+
+
+TOKS = [None, Tok(1), Tok(2)]
 
 
 def _count(obj, name):
@@ -78,6 +100,26 @@ class PNode(HasTraits):
 
     def _set_cset(self, v):
         self.value = v - 100
+
+    #: "first match or None": the computed value is None most of the time
+    bigkid = Property(Any, observe="kids.items.value")
+
+    @cached_property
+    def _get_bigkid(self):
+        _count(self, "bigkid")
+        for k in self.kids:
+            if k.value > 1000:
+                return k.value
+        return None
+
+    #: depends on a trait whose values cannot be compared with == safely
+    tok = Any
+    tokname = Property(Int, observe="tok")
+
+    @cached_property
+    def _get_tokname(self):
+        _count(self, "tokname")
+        return 0 if self.tok is None else self.tok.k
 
     #: never given a named handler: only anytrait listeners hear about it
     alone = Property(Int, observe="value")
@@ -150,6 +192,14 @@ def recompute(o, name):
         if child is None:
             return -1
         return sum(k.value for k in child.__dict__.get("kids", ()))
+    if name == "bigkid":
+        for k in kids:
+            if k.value > 1000:
+                return k.value
+        return None
+    if name == "tokname":
+        t = d.get("tok")
+        return 0 if t is None else t.k
     if name == "msum":
         return sum(v.value for v in d.get("kmap", {}).values())
     if name == "ssum":
@@ -203,6 +253,7 @@ def menu():
     evs += [("set_value", i) for i in range(3)]
     evs += [("set_trigger", i) for i in range(2)]
     evs += [("set_cset", i) for i in range(2)]
+    evs += [("set_tok", 0, j) for j in range(3)]
     evs += [("read_all",), ("read_all_root",)]
     evs += [("copy", how) for how in ("pickle", "deepcopy", "clone")]
     return evs
@@ -212,6 +263,9 @@ def enabled(w, ev):
     if ev[0] in ("set_value", "read_all", "read_all_root", "set_trigger",
                  "set_cset"):
         return True
+    if ev[0] == "set_tok":
+        return w.pool[ev[1]].__dict__.get("tok") is not TOKS[ev[2]] and not \
+            w.copied
     if ev[0] == "copy":
         return w.copied is None
     return G.enabled(w.pool, ev)
@@ -221,6 +275,8 @@ def apply(w, ev):
     k = ev[0]
     if k == "set_value":
         w.pool[ev[1]].value += 10
+    elif k == "set_tok":
+        w.pool[ev[1]].tok = TOKS[ev[2]]
     elif k == "set_cset":
         w.pool[ev[1]].cset = w.pool[ev[1]].value + 100 + 7
     elif k == "set_trigger":
@@ -347,7 +403,8 @@ def run_history(ctx, hist):
     # canonical key BEFORE the final reads (they fill the caches)
     caches = [sorted(k for k in o.__dict__ if k.startswith("_traits_cache"))
               for o in w.pool]
-    key = (G.shape(w.pool)[:3], [o.value for o in w.pool], caches,
+    key = (G.shape(w.pool)[:3], [o.value for o in w.pool],
+           repr(w.pool[0].__dict__.get("tok")), caches,
            G.fingerprint(w.pool), w.copied)
     ok = final_check(ctx, w, hist, None)
     return good and ok, key
